@@ -198,8 +198,8 @@ def check(pid, tier):
             log("\n".join(body[:120]))
     for v in sorted(violations):
         log(v)
-    for m in infra:
-        log("INFRA: " + m)
+    for i, m in enumerate(infra):
+        log("INFRA: " + (m if i == 0 else m.splitlines()[0]))
     wall = time.time() - t0
     merge(pid, tier, seed, results, wall, len(violations), bool(infra))
     total = sum((s["evals"] for r in results for s in (r["stats"] or []) if s["id"] == pid), 0)
